@@ -5,8 +5,8 @@
 From Coq Require Import List NArith ZArith Bool QArith Qcanon Sorted.
 From Okv Require Import Base.Maps Base.Dec Model.Amount Model.ImpConfig Model.ImpExtract
      Model.ImpSingleEntry Model.ImpCsv Model.ImpBook
-     Proofs.ImpExtractProofs Proofs.ImpBook_Process Proofs.ImpCsvProofs Proofs.ImpBook_Accepted
-     Proofs.ImpExamples.
+     Proofs.ImpExtractProofs Proofs.ImpBook_Process Proofs.ImpCsvProofs Proofs.ImpBook_Accepted.
+From Okv Require Proofs.ImpExamples.   (* the hypotheses are satisfiable *)
 From Okv Require Model.Book.
 Import ListNotations.
 
